@@ -298,6 +298,25 @@ def byvalue_check(case, ctx):
     return res
 
 
+def units_check(case, ctx):
+    """Declaration histories of several identifiers (C09's unit generator): tentative definitions, late type completion,
+    asm labels, thread-locals: valid module, data size and alignment as clang's."""
+    res = Result()
+    src = case.encode()
+    for t in cproc.TARGETS:
+        p = cproc.cc(ctx, src, t, "plain", timeout=60)
+        res.n += 1
+        if p.timeout or p.rc != 0:
+            res.discard.append("rejected-or-timeout")
+            continue
+        check_il(ctx, p, res, "units/%s" % t, src, t, with_clang=True)
+        if res.fail is not None:
+            res.fail["input"] = case
+            break
+    res.sample = {"source": "units", "head": case[:200]}
+    return res
+
+
 def gen_sources(ctx):
     try:
         from . import c01
@@ -314,4 +333,5 @@ def sources(ctx):
         Source("mutant", mutant_check, strategy=mutant_strategy, examples={"quick": 12000, "thorough": 300000}),
         Source("inits", inits_check, strategy=lambda c: __import__("vlib.gen.initgen", fromlist=["x"]).init_cases(), examples={"quick": 500, "thorough": 20000}),
         Source("byvalue", byvalue_check, strategy=lambda c: __import__("vlib.props.c08", fromlist=["x"]).struct_cases(), examples={"quick": 600, "thorough": 20000}),
+        Source("units", units_check, strategy=lambda c: __import__("vlib.props.c09", fromlist=["x"]).units(), examples={"quick": 300, "thorough": 10000}),
     ] + gen_sources(ctx)
